@@ -293,6 +293,12 @@ func ExecReplay(p Prop, r *Replay) (*Violation, bool, *Ctx, error) {
 	}
 	c := NewCtx(r.Tier)
 	c.KeepLog = true
+	if w, err := time.ParseDuration(os.Getenv("PQSIM_REPLAY_WALL")); err == nil && w > 0 {
+		// confirmation of a hang candidate: an enumeration over many cases stops
+		// here (no hang); one case that never returns still runs into the
+		// driver's timeout
+		c.Deadline = time.Now().Add(w)
+	}
 	out := SafeRun(p, sc, c)
 	return out.Violation, r.EventHash == "" || c.Hash() == r.EventHash, c, nil
 }
